@@ -922,6 +922,11 @@ def run_r5_graph(repo: Repo, res: Result) -> None:
             for t in (x, y):
                 if not known_node(r, e, t):
                     asked = [at for at, v in e.path.items() if v and at.fn.startswith("member@") and at.args[1] == t]
+                    about_graph = [at for at, v in e.path.items() if not at.fn.startswith(("hasnode@", "hasedge@", "member@")) and mentions(at, t) and any(isinstance(x, str) and x == e.obj.name for x in subterms(at))]
+                    if about_graph and not asked:
+                        # something about this endpoint and the graph was asked - in a form the executor does not understand
+                        unknown.append(f"the edge {show(x)} -> {show(y)} is added after the condition {show(about_graph[0])[:200]} was decided: the executor cannot tell whether it establishes that {show(t)} is a node")
+                        continue
                     if asked:
                         # a membership test did precede the edge - in a collection the executor cannot relate to the nodes of the graph
                         unknown.append(f"the edge {show(x)} -> {show(y)} is added after {show(t)} was found in the collection {asked[0].args[0]}: the executor cannot tell whether that collection holds the known modules")
